@@ -323,7 +323,8 @@ pub fn frames(tier: Tier) -> Vec<Seed> {
     v.push(mk("last block empty", Header::window(1 << 3, true), vec![Block::Raw((0..1500u32).map(|i| (i * 3) as u8).collect()), Block::Rle(9, 900), Block::Raw(vec![])]));
     v.push(mk("content smaller than window", Header::window(8, false), vec![Block::Raw(b"tiny content".to_vec()), Block::Rle(b'z', 40)]));
     if tier == Tier::Thorough {
-        v.push(seeds::windowed(true, 12));
+        // (12 blocks: 22 M states and 350 M transitions per reader, half an hour each - measured once, see DESIGN)
+        v.push(seeds::windowed(true, 10));
         let mut data = vec![];
         let mut i = 0u32;
         while data.len() < 300_000 {
@@ -370,7 +371,8 @@ pub fn explore(run: &mut Run, tier: Tier, prop: &str) -> Totals {
     for s in frames(tier) {
         let big = s.frame.len() > 20_000;
         let big = big || (tier == Tier::Quick && s.plain.len() > 3000);
-        for trickle in if big { vec![0usize] } else { tier.pick(vec![0usize, 3], vec![0, 1, 3, 5]) } {
+        let deep = s.plain.len() > 8000;
+        for trickle in if big { vec![0usize] } else if deep { vec![0usize, 3] } else { tier.pick(vec![0usize, 3], vec![0, 1, 3, 5]) } {
             systems.push(DriveSys::new(s.clone(), trickle, false));
         }
     }
